@@ -1,1 +1,664 @@
+(* Proofs about the Inflights model: it refines a bounded FIFO under every
+   sequence of operations (C18). *)
 From RV Require Import Base.Prelude M.Inflights.
+From Coq Require Import Sorting.Sorted.
+
+(* ------------------------------------------------------------------ *)
+(* The abstract specification: a bounded FIFO with a deferred capacity. *)
+
+Record fifo := mkFifo { q : list N; fcap : nat; pending : option nat }.
+
+Fixpoint dropwhile_le (to : N) (l : list N) : list N :=
+  match l with
+  | [] => []
+  | b :: t => if (to <? b)%N then l else dropwhile_le to t
+  end.
+
+Definition settle (f : fifo) : fifo :=
+  match q f, pending f with
+  | [], Some c => mkFifo [] c None
+  | _, _ => f
+  end.
+
+Definition snew (c : nat) : fifo := mkFifo [] c None.
+
+Definition sfull (f : fifo) : bool :=
+  (length (q f) =? fcap f) ||
+  match pending f with Some c => c <=? length (q f) | None => false end.
+
+Definition sfree_to (f : fifo) (to : N) : fifo :=
+  settle (mkFifo (dropwhile_le to (q f)) (fcap f) (pending f)).
+
+Definition sstep (f : fifo) (o : op) : fifo :=
+  match o with
+  | OAdd x => mkFifo (q f ++ [x]) (fcap f) (pending f)
+  | OFreeTo to => sfree_to f to
+  | OFreeFirst => match q f with [] => f | b :: _ => sfree_to f b end
+  | OReset => mkFifo [] (match pending f with Some c => c | None => fcap f end) None
+  | OSetCap c =>
+      match Nat.compare (fcap f) c with
+      | Eq => mkFifo (q f) (fcap f) None
+      | Lt => mkFifo (q f) c None
+      | Gt => match q f with
+              | [] => mkFifo [] c None
+              | _ => mkFifo (q f) (fcap f) (Some c)
+              end
+      end
+  | OMaybeFree => f
+  end.
+
+(* ------------------------------------------------------------------ *)
+(* Abstraction function: the [count] elements from [start], modulo [cap]. *)
+
+Definition pos (c st k : nat) : nat := if c <=? st + k then st + k - c else st + k.
+
+Definition ring (buf : list N) (c st n : nat) : list N :=
+  map (fun k => nth (pos c st k) buf 0%N) (seq 0 n).
+
+Definition abs (s : inflights) : list N := ring (buffer s) (cap s) (start s) (count s).
+
+Definition abs_state (s : inflights) : fifo := mkFifo (abs s) (cap s) (incoming_cap s).
+
+Definition Inv (s : inflights) : Prop :=
+  count s <= cap s /\
+  (start s < cap s \/ start s = 0) /\
+  length (buffer s) <= cap s /\
+  (cap s < start s + count s -> length (buffer s) = cap s) /\
+  (start s + count s <= cap s -> start s + count s <= length (buffer s)) /\
+  (forall c, incoming_cap s = Some c -> c < cap s /\ 0 < count s) /\
+  (allocated s = false -> buffer s = []).
+
+(* ------------------------------------------------------------------ *)
+(* Generic list lemmas *)
+
+Lemma upd_length {A} (l : list A) i a : length (upd l i a) = length l.
+Proof. revert i; induction l as [|h t IH]; intros [|i]; cbn; auto. Qed.
+
+Lemma nth_upd_eq {A} (l : list A) i a d : i < length l -> nth i (upd l i a) d = a.
+Proof. revert i; induction l as [|h t IH]; intros [|i] H; cbn in *; try lia; auto. apply IH; lia. Qed.
+
+Lemma nth_upd_neq {A} (l : list A) i j a d : i <> j -> nth j (upd l i a) d = nth j l d.
+Proof.
+  revert i j; induction l as [|h t IH]; intros [|i] [|j] H; cbn; auto; try lia.
+Qed.
+
+Lemma ring_length buf c st n : length (ring buf c st n) = n.
+Proof. unfold ring. rewrite map_length, seq_length. reflexivity. Qed.
+
+Lemma ring_ext buf buf' c c' st st' n :
+  (forall k, k < n -> nth (pos c st k) buf 0%N = nth (pos c' st' k) buf' 0%N) ->
+  ring buf c st n = ring buf' c' st' n.
+Proof.
+  intros H. unfold ring. apply map_ext_in. intros k Hk. apply in_seq in Hk. apply H. lia.
+Qed.
+
+Lemma ring_S buf c st n :
+  ring buf c st (S n) = ring buf c st n ++ [nth (pos c st n) buf 0%N].
+Proof. unfold ring. rewrite seq_S, map_app. reflexivity. Qed.
+
+Ltac case_leb :=
+  repeat match goal with
+  | |- context [?a <=? ?b] => destruct (Nat.leb_spec a b)
+  | |- context [?a <? ?b] => destruct (Nat.ltb_spec a b)
+  | |- context [?a =? ?b] => destruct (Nat.eqb_spec a b)
+  end; try lia.
+
+Lemma pos_pos c st j k :
+  st < c -> j + k <= c -> k < c \/ k = 0 -> pos c (pos c st j) k = pos c st (j + k).
+Proof.
+  intros Hst Hjk Hk. unfold pos.
+  destruct (c <=? st + j) eqn:E1; destruct (c <=? st + (j + k)) eqn:E2;
+    try destruct (c <=? st + j - c + k) eqn:E3; try destruct (c <=? st + j + k) eqn:E4; lia.
+Qed.
+
+Lemma pos_lt c st k : st < c -> k <= c -> pos c st k < c.
+Proof. intros. unfold pos. destruct (c <=? st + k) eqn:E; lia. Qed.
+
+Lemma pos_0 c st : st < c \/ st = 0 -> pos c st 0 = st.
+Proof. intros H. unfold pos. destruct (c <=? st + 0) eqn:E; lia. Qed.
+
+Lemma pos_inj c st k k' : st < c -> k < c -> k' < c -> pos c st k = pos c st k' -> k = k'.
+Proof.
+  intros Hst Hk Hk'. unfold pos.
+  destruct (c <=? st + k) eqn:E1; destruct (c <=? st + k') eqn:E2; lia.
+Qed.
+
+Lemma seq_shift_add i n : seq i n = map (fun k => i + k) (seq 0 n).
+Proof.
+  revert i. induction n as [|n IH]; intros i; [reflexivity|].
+  cbn [seq map]. rewrite Nat.add_0_r. f_equal.
+  rewrite (IH (S i)), <- seq_shift, map_map.
+  apply map_ext. intros k. lia.
+Qed.
+
+Lemma ring_shift buf c st j n :
+  st < c -> j + n <= c ->
+  ring buf c (pos c st j) n = map (fun k => nth (pos c st k) buf 0%N) (seq j n).
+Proof.
+  intros Hst Hjn. unfold ring. rewrite (seq_shift_add j n), map_map.
+  apply map_ext_in. intros k Hk. apply in_seq in Hk.
+  rewrite pos_pos; auto; lia.
+Qed.
+
+(* ------------------------------------------------------------------ *)
+(* free_to's loop computes dropwhile on the ring *)
+
+Lemma idx_ok {A} (l : list A) i s d : i < length l -> idx l i s = Ok (nth i l d).
+Proof. intros H. unfold idx. rewrite (nth_error_nth' l d H). reflexivity. Qed.
+
+Lemma free_loop_spec buf c st to : forall fuel i,
+  st < c -> i + fuel <= c ->
+  (forall k, k < i + fuel -> pos c st k < length buf) ->
+  exists j, j <= fuel /\
+    free_loop buf c to fuel i (pos c st i) = Ok (i + j, pos c st (i + j)) /\
+    dropwhile_le to (map (fun k => nth (pos c st k) buf 0%N) (seq i fuel)) =
+    map (fun k => nth (pos c st k) buf 0%N) (seq (i + j) (fuel - j)).
+Proof.
+  induction fuel as [|fuel IH]; intros i Hst Hle Hin.
+  - exists 0. cbn. rewrite Nat.add_0_r. auto.
+  - cbn [free_loop seq map dropwhile_le].
+    rewrite (idx_ok buf (pos c st i) site_free_index 0%N) by (apply Hin; lia).
+    cbn [bind].
+    destruct (to <? nth (pos c st i) buf 0)%N eqn:Elt.
+    + exists 0. rewrite Nat.add_0_r, Nat.sub_0_r. cbn [seq map]. auto with arith.
+    + assert (Hw : (if c <=? S (pos c st i) then S (pos c st i) - c else S (pos c st i))
+                   = pos c st (S i)).
+      { unfold pos. case_leb. }
+      rewrite Hw.
+      destruct (IH (S i)) as (j & Hj & Hl & Hd); try lia.
+      { intros k Hk. apply Hin. lia. }
+      exists (S j). split; [lia|]. replace (i + S j) with (S i + j) by lia. split.
+      * exact Hl.
+      * rewrite Hd. reflexivity.
+Qed.
+
+Lemma dropwhile_le_spec to l :
+  exists removed, l = removed ++ dropwhile_le to l /\
+    Forall (fun b => (b <= to)%N) removed /\
+    match dropwhile_le to l with [] => True | b :: _ => (to < b)%N end.
+Proof.
+  induction l as [|b t IH].
+  - exists []. cbn. auto.
+  - cbn [dropwhile_le]. destruct (to <? b)%N eqn:E.
+    + exists []. cbn. split; [reflexivity|]. split; [constructor|]. lia.
+    + destruct IH as (r & Hr & Hf & Hh). exists (b :: r). cbn. split; [congruence|].
+      split; [constructor; [lia|assumption]|assumption].
+Qed.
+
+(* ------------------------------------------------------------------ *)
+(* Invariant facts *)
+
+Lemma Inv_pos_lt s k : Inv s -> k < count s -> pos (cap s) (start s) k < length (buffer s).
+Proof.
+  intros (Hc & Hs & Hl & Hw & Hn & _) Hk. unfold pos.
+  destruct (cap s <=? start s + k) eqn:E.
+  - assert (length (buffer s) = cap s) by (apply Hw; lia). lia.
+  - destruct (Nat.le_gt_cases (start s + count s) (cap s)) as [H|H].
+    + specialize (Hn H). lia.
+    + assert (length (buffer s) = cap s) by (apply Hw; lia). lia.
+Qed.
+
+Lemma Inv_new c : Inv (new c).
+Proof.
+  unfold Inv, new; cbn.
+  split; [lia|]. split; [destruct c; lia|]. split; [lia|]. split; [lia|]. split; [lia|].
+  split; [intros ? H; discriminate|]. reflexivity.
+Qed.
+
+Lemma abs_new c : abs_state (new c) = snew c.
+Proof. reflexivity. Qed.
+
+Lemma full_sfull s : full s = sfull (abs_state s).
+Proof. unfold full, sfull, abs_state, abs; cbn. rewrite ring_length. reflexivity. Qed.
+
+Lemma count_abs s : count s = length (abs s).
+Proof. unfold abs. rewrite ring_length. reflexivity. Qed.
+
+(* ------------------------------------------------------------------ *)
+(* Per-operation refinement *)
+
+Definition refines_step (s : inflights) (o : op) : Prop :=
+  exists s', step s o = Ok s' /\ Inv s' /\ abs_state s' = sstep (abs_state s) o.
+
+Lemma ring_0 buf c st : ring buf c st 0 = [].
+Proof. reflexivity. Qed.
+
+Lemma reset_refines s : Inv s -> refines_step s OReset.
+Proof.
+  intros HI. exists (reset s). split; [reflexivity|]. split.
+  - unfold Inv, reset; cbn.
+    split; [lia|]. split; [lia|]. split; [lia|]. split; [lia|]. split; [lia|].
+    split; [intros ? H; discriminate|]. reflexivity.
+  - reflexivity.
+Qed.
+
+Lemma maybe_free_refines s : Inv s -> refines_step s OMaybeFree.
+Proof.
+  intros HI. exists (maybe_free_buffer s). split; [reflexivity|].
+  unfold maybe_free_buffer. destruct (Nat.eqb_spec (count s) 0) as [E|E].
+  - destruct HI as (Hc & Hs & Hl & Hw & Hn & Hi & Ha). split.
+    + unfold Inv; cbn.
+      split; [lia|]. split; [lia|]. split; [lia|]. split; [lia|]. split; [lia|].
+      split; [intros c Hc'; specialize (Hi c Hc'); lia|]. reflexivity.
+    + unfold abs_state, abs; cbn. rewrite E. reflexivity.
+  - split; [assumption|reflexivity].
+Qed.
+
+Lemma nth_skipn {A} (l : list A) n k d : nth k (skipn n l) d = nth (n + k) l d.
+Proof.
+  revert l; induction n as [|n IH]; intros l; [reflexivity|].
+  destruct l as [|h t]; cbn [skipn]; [destruct k; reflexivity|]. apply IH.
+Qed.
+
+Lemma nth_firstn {A} (l : list A) n k d : k < n -> nth k (firstn n l) d = nth k l d.
+Proof.
+  revert l k; induction n as [|n IH]; intros l k H; [lia|].
+  destruct l as [|h t]; [reflexivity|]. destruct k as [|k]; [reflexivity|].
+  cbn. apply IH. lia.
+Qed.
+
+Lemma set_cap_refines s ic : Inv s -> refines_step s (OSetCap ic).
+Proof.
+  intros HI. pose proof HI as (Hc & Hs & Hl & Hw & Hn & Hi & Ha).
+  unfold refines_step. cbn [step]. unfold set_cap, sstep, abs_state at 2. cbn [fcap q pending].
+  destruct (Nat.compare_spec (cap s) ic) as [E|E|E].
+  - (* equal *)
+    eexists. split; [reflexivity|]. split.
+    + unfold Inv; cbn. repeat (split; [assumption|]). split; [intros ? H; discriminate|assumption].
+    + reflexivity.
+  - (* grow *)
+    destruct (Nat.leb_spec (start s + count s) (cap s)) as [Hnw|Hwr].
+    + eexists. split; [reflexivity|]. split.
+      * unfold Inv; cbn.
+        split; [lia|]. split; [lia|]. split; [lia|]. split; [lia|]. split; [intros _; apply Hn; lia|].
+        split; [intros ? H; discriminate|assumption].
+      * unfold abs_state, abs; cbn. f_equal. apply ring_ext. intros k Hk. unfold pos. case_leb.
+    + assert (Hlen : length (buffer s) = cap s) by (apply Hw; lia).
+      assert (Hst : start s < cap s) by lia.
+      rewrite Hlen, Nat.eqb_refl. cbn [negb].
+      destruct (Nat.ltb_spec (cap s) (start s)); [lia|].
+      destruct (Nat.ltb_spec (count s) (cap s - start s)); [lia|].
+      destruct (Nat.ltb_spec (cap s) (count s - (cap s - start s))); [lia|].
+      eexists. split; [reflexivity|].
+      assert (Hbl : length (skipn (start s) (buffer s)
+                            ++ firstn (count s - (cap s - start s)) (buffer s)) = count s).
+      { rewrite app_length, skipn_length, firstn_length. lia. }
+      split.
+      * unfold Inv; cbn [start count buffer cap incoming_cap allocated]. rewrite Hbl.
+        split; [lia|]. split; [lia|]. split; [lia|]. split; [lia|]. split; [lia|].
+        split; [intros ? H'; discriminate|].
+        destruct (Nat.ltb_spec 0 ic); [discriminate|lia].
+      * unfold abs_state, abs; cbn [start count buffer cap incoming_cap]. f_equal.
+        apply ring_ext. intros k Hk.
+        assert (Hp0 : pos ic 0 k = k) by (unfold pos; case_leb). rewrite Hp0.
+        destruct (Nat.lt_ge_cases k (cap s - start s)) as [Hk1|Hk1].
+        -- rewrite app_nth1 by (rewrite skipn_length; lia).
+           rewrite nth_skipn. f_equal. unfold pos. case_leb.
+        -- rewrite app_nth2 by (rewrite skipn_length; lia).
+           rewrite skipn_length, Hlen.
+           rewrite nth_firstn by lia. f_equal. unfold pos. case_leb.
+  - (* shrink *)
+    destruct (Nat.eqb_spec (count s) 0) as [E0|E0].
+    + eexists. split; [reflexivity|]. split.
+      * unfold Inv; cbn [start count buffer cap incoming_cap allocated].
+        assert (Hb : (if allocated s then [] else buffer s) = []).
+        { destruct (allocated s); [reflexivity|]. apply Ha. reflexivity. }
+        rewrite Hb. cbn [length].
+        split; [lia|]. split; [lia|]. split; [lia|]. split; [lia|]. split; [lia|].
+        split; [intros ? H'; discriminate|]. reflexivity.
+      * unfold abs_state, abs; cbn [start count buffer cap incoming_cap]. rewrite E0. reflexivity.
+    + eexists. split; [reflexivity|]. split.
+      * unfold Inv; cbn [start count buffer cap incoming_cap allocated].
+        repeat (split; [assumption|]). split; [|assumption].
+        intros c Hc'. inversion Hc'; subst. lia.
+      * unfold abs_state, abs; cbn [start count buffer cap incoming_cap].
+        destruct (count s) as [|n] eqn:En; [lia|]. rewrite ring_S.
+        destruct (ring (buffer s) (cap s) (start s) n); reflexivity.
+Qed.
+
+Lemma add_refines s x : Inv s -> full s = false -> refines_step s (OAdd x).
+Proof.
+  intros HI Hfull. pose proof HI as (Hc & Hs & Hl & Hw & Hn & Hi & Ha).
+  unfold refines_step. cbn [step]. unfold add. rewrite Hfull.
+  assert (Hcnt : count s < cap s).
+  { unfold full in Hfull. apply orb_false_iff in Hfull. destruct Hfull as [H1 _].
+    apply Nat.eqb_neq in H1. lia. }
+  (* the lazily (re)allocated state has the same fields as s, except [allocated] *)
+  assert (Hs1 : exists al,
+    (if allocated s then Ok s
+     else if negb (count s =? 0) then Panic site_add_dbg_count
+     else if negb (start s =? 0) then Panic site_add_dbg_start
+     else match incoming_cap s with
+          | Some _ => Panic site_add_dbg_incoming
+          | None => Ok (mkInf (start s) (count s) [] (cap s) None (0 <? cap s))
+          end) = Ok (mkInf (start s) (count s) (buffer s) (cap s) (incoming_cap s) al)
+    /\ al = true).
+  { destruct (allocated s) eqn:Eal.
+    - exists true. split; [destruct s; cbn in *; subst; reflexivity|reflexivity].
+    - specialize (Ha eq_refl). rewrite Ha in *. cbn [length] in *.
+      assert (count s = 0 /\ start s = 0) as [Hc0 Hs0].
+      { destruct (Nat.le_gt_cases (start s + count s) (cap s)) as [H|H].
+        - specialize (Hn H). lia.
+        - specialize (Hw H). lia. }
+      rewrite Hc0, Hs0. cbn [Nat.eqb negb].
+      destruct (incoming_cap s) as [c|] eqn:Eic.
+      + destruct (Hi c eq_refl). lia.
+      + exists (0 <? cap s). split; [reflexivity|]. apply Nat.ltb_lt. lia. }
+  destruct Hs1 as (al & -> & ->). cbn [bind start count buffer cap incoming_cap allocated].
+  set (next := if cap s <=? start s + count s then start s + count s - cap s else start s + count s).
+  assert (Hnext : next = pos (cap s) (start s) (count s)) by reflexivity.
+  assert (Hnlt : next < cap s) by (rewrite Hnext; apply pos_lt; lia).
+  assert (Hnle : next <= length (buffer s)).
+  { subst next. destruct (Nat.leb_spec (cap s) (start s + count s)) as [H|H].
+    - destruct (Nat.eq_dec (start s + count s) (cap s)) as [He|He].
+      + assert (start s + count s <= length (buffer s)) by (apply Hn; lia). lia.
+      + assert (length (buffer s) = cap s) by (apply Hw; lia). lia.
+    - apply Hn. lia. }
+  destruct (Nat.ltb_spec (length (buffer s)) next) as [Hbad|_]; [lia|].
+  eexists. split; [reflexivity|].
+  set (buf' := if next =? length (buffer s) then buffer s ++ [x] else upd (buffer s) next x).
+  assert (Hlen' : length buf' = if next =? length (buffer s) then S (length (buffer s))
+                                else length (buffer s)).
+  { subst buf'. destruct (next =? length (buffer s)).
+    - rewrite app_length. cbn. lia.
+    - apply upd_length. }
+  assert (Hnth : nth next buf' 0%N = x).
+  { subst buf'. destruct (Nat.eqb_spec next (length (buffer s))) as [E|E].
+    - rewrite app_nth2 by lia. rewrite E, Nat.sub_diag. reflexivity.
+    - apply nth_upd_eq. lia. }
+  assert (Hold : forall k, k < count s ->
+            nth (pos (cap s) (start s) k) buf' 0%N = nth (pos (cap s) (start s) k) (buffer s) 0%N).
+  { intros k Hk. pose proof (Inv_pos_lt s k HI Hk) as Hpl.
+    assert (Hne : next <> pos (cap s) (start s) k).
+    { rewrite Hnext. intros Heq. apply pos_inj in Heq; lia. }
+    subst buf'. destruct (Nat.eqb_spec next (length (buffer s))) as [E|E].
+    - apply app_nth1. assumption.
+    - apply nth_upd_neq. assumption. }
+  split.
+  - unfold Inv; cbn [start count buffer cap incoming_cap allocated]. fold buf'. rewrite Hlen'.
+    split; [lia|]. split; [assumption|].
+    split; [destruct (Nat.eqb_spec next (length (buffer s))); lia|].
+    split.
+    { intros Hwr. destruct (Nat.eqb_spec next (length (buffer s))) as [E|E].
+      - subst next. destruct (Nat.leb_spec (cap s) (start s + count s)) as [H|H]; [|lia].
+        destruct (Nat.eq_dec (start s + count s) (cap s)) as [He|He].
+        + assert (start s + count s <= length (buffer s)) by (apply Hn; lia). lia.
+        + assert (length (buffer s) = cap s) by (apply Hw; lia). lia.
+      - destruct (Nat.eq_dec (start s + count s) (cap s)) as [He|He].
+        + assert (start s + count s <= length (buffer s)) by (apply Hn; lia). lia.
+        + apply Hw. lia. }
+    split.
+    { intros Hnw. assert (Hlt : start s + count s < cap s) by lia.
+      assert (Hne : next = start s + count s).
+      { subst next. destruct (Nat.leb_spec (cap s) (start s + count s)); lia. }
+      destruct (Nat.eqb_spec next (length (buffer s))); lia. }
+    split; [intros c Hc'; destruct (Hi c Hc'); lia|]. discriminate.
+  - unfold abs_state, abs; cbn [start count buffer cap incoming_cap sstep q fcap pending].
+    fold buf'. f_equal. rewrite ring_S. rewrite <- Hnext, Hnth. f_equal.
+    apply ring_ext. assumption.
+Qed.
+
+Lemma settle_nonempty b t c p : settle (mkFifo (b :: t) c p) = mkFifo (b :: t) c p.
+Proof. reflexivity. Qed.
+
+Lemma free_to_refines s to : Inv s -> refines_step s (OFreeTo to).
+Proof.
+  intros HI. pose proof HI as (Hc & Hs & Hl & Hw & Hn & Hi & Ha).
+  unfold refines_step. cbn [step sstep]. unfold free_to, sfree_to.
+  change (fcap (abs_state s)) with (cap s).
+  change (pending (abs_state s)) with (incoming_cap s).
+  change (q (abs_state s)) with (abs s).
+  destruct (Nat.eqb_spec (count s) 0) as [E0|E0].
+  { exists s. split; [reflexivity|]. split; [assumption|].
+    unfold abs_state, abs. rewrite E0. cbn [ring seq map dropwhile_le].
+    destruct (incoming_cap s) as [c|] eqn:Eic; [destruct (Hi c eq_refl); lia|].
+    reflexivity. }
+  assert (Hst : start s < cap s) by lia.
+  assert (Hp0 : pos (cap s) (start s) 0 = start s) by (apply pos_0; lia).
+  assert (Hin : forall k, k < 0 + count s -> pos (cap s) (start s) k < length (buffer s)).
+  { intros k Hk. apply Inv_pos_lt; [assumption|lia]. }
+  rewrite (idx_ok (buffer s) (start s) site_free_index 0%N)
+    by (rewrite <- Hp0; apply Hin; lia).
+  cbn [bind].
+  assert (Habs : abs s = nth (start s) (buffer s) 0%N
+                         :: map (fun k => nth (pos (cap s) (start s) k) (buffer s) 0%N)
+                                (seq 1 (count s - 1))).
+  { unfold abs, ring. destruct (count s) as [|n]; [lia|]. cbn [seq map].
+    rewrite Hp0, Nat.sub_succ, Nat.sub_0_r. reflexivity. }
+  destruct (to <? nth (start s) (buffer s) 0)%N eqn:Elt.
+  { exists s. split; [reflexivity|]. split; [assumption|].
+    unfold abs_state. rewrite Habs. cbn [dropwhile_le]. rewrite Elt. reflexivity. }
+  destruct (free_loop_spec (buffer s) (cap s) (start s) to (count s) 0 Hst ltac:(lia) Hin)
+    as (j & Hj & Hloop & Hdrop).
+  rewrite Hp0 in Hloop. rewrite Hloop. cbn [bind Nat.add].
+  fold (ring (buffer s) (cap s) (start s) (count s)) in Hdrop. fold (abs s) in Hdrop.
+  rewrite Hdrop. cbn [Nat.add].
+  assert (Hixlt : pos (cap s) (start s) j < cap s) by (apply pos_lt; lia).
+  destruct (Nat.eqb_spec (count s - j) 0) as [Ej|Ej].
+  - rewrite Ej. cbn [seq map].
+    destruct (incoming_cap s) as [ic|] eqn:Eic.
+    + eexists. split; [reflexivity|]. split; [|reflexivity].
+      unfold Inv; cbn.
+      split; [lia|]. split; [lia|]. split; [lia|]. split; [lia|]. split; [lia|].
+      split; [intros ? H'; discriminate|]. reflexivity.
+    + eexists. split; [reflexivity|]. split; [|reflexivity].
+      assert (j = count s) by lia. subst j.
+      unfold Inv; cbn [start count buffer cap incoming_cap allocated].
+      split; [lia|]. split; [lia|]. split; [assumption|]. split; [lia|].
+      split.
+      { intros _. rewrite Nat.add_0_r. unfold pos.
+        destruct (Nat.leb_spec (cap s) (start s + count s)) as [H|H].
+        - destruct (Nat.eq_dec (start s + count s) (cap s)) as [He|He]; [lia|].
+          assert (length (buffer s) = cap s) by (apply Hw; lia). lia.
+        - apply Hn. lia. }
+      split; [intros ? H'; discriminate|assumption].
+  - eexists. split; [reflexivity|].
+    assert (Hpj : pos (cap s) (start s) j =
+                  if cap s <=? start s + j then start s + j - cap s else start s + j) by reflexivity.
+    split.
+    + unfold Inv; cbn [start count buffer cap incoming_cap allocated].
+      split; [lia|]. split; [lia|]. split; [assumption|].
+      split.
+      { intros Hwr. apply Hw. rewrite Hpj in Hwr.
+        destruct (Nat.leb_spec (cap s) (start s + j)); lia. }
+      split.
+      { intros Hnw. rewrite Hpj in *.
+        destruct (Nat.leb_spec (cap s) (start s + j)) as [H|H].
+        - assert (length (buffer s) = cap s) by (apply Hw; lia). lia.
+        - assert (start s + count s <= length (buffer s)) by (apply Hn; lia). lia. }
+      split; [intros c Hc'; destruct (Hi c Hc'); lia|assumption].
+    + unfold abs_state, abs; cbn [start count buffer cap incoming_cap].
+      rewrite ring_shift by lia.
+      destruct (count s - j) as [|n] eqn:En; [lia|]. cbn [seq map]. reflexivity.
+Qed.
+
+Lemma free_first_refines s : Inv s -> refines_step s OFreeFirst.
+Proof.
+  intros HI. pose proof HI as (Hc & Hs & Hl & Hw & Hn & Hi & Ha).
+  unfold refines_step. cbn [step sstep]. unfold free_first_one.
+  destruct (Nat.ltb_spec 0 (count s)) as [Hpos|Hz].
+  - assert (Hp0 : pos (cap s) (start s) 0 = start s) by (apply pos_0; lia).
+    rewrite (idx_ok (buffer s) (start s) site_first_index 0%N)
+      by (rewrite <- Hp0; apply Inv_pos_lt; assumption).
+    cbn [bind].
+    assert (Habs : exists t, abs s = nth (start s) (buffer s) 0%N :: t).
+    { unfold abs, ring. destruct (count s) as [|n]; [lia|]. cbn [seq map]. rewrite Hp0. eauto. }
+    destruct Habs as (t & Habs). unfold abs_state at 2. cbn [q]. rewrite Habs.
+    destruct (free_to_refines s (nth (start s) (buffer s) 0%N) HI) as (s' & H1 & H2 & H3).
+    exists s'. split; [exact H1|]. split; [exact H2|]. rewrite H3. reflexivity.
+  - exists s. split; [reflexivity|]. split; [assumption|].
+    unfold abs_state, abs. assert (count s = 0) as -> by lia. reflexivity.
+Qed.
+
+(* ------------------------------------------------------------------ *)
+(* Main theorems *)
+
+Theorem step_refines s o :
+  Inv s -> (forall x, o = OAdd x -> full s = false) -> refines_step s o.
+Proof.
+  intros HI Hadd. destruct o as [x|x| | |c| ].
+  - apply add_refines; [assumption|]. apply (Hadd x). reflexivity.
+  - apply free_to_refines; assumption.
+  - apply free_first_refines; assumption.
+  - apply reset_refines; assumption.
+  - apply set_cap_refines; assumption.
+  - apply maybe_free_refines; assumption.
+Qed.
+
+Theorem add_full_panics s x : full s = true -> add s x = Panic site_add_full.
+Proof. intros H. unfold add. rewrite H. reflexivity. Qed.
+
+(* A history is valid when every add happens on a window that is not full
+   (the documented precondition of [add]); everything else is unrestricted. *)
+Fixpoint valid_hist (f : fifo) (ops : list op) : Prop :=
+  match ops with
+  | [] => True
+  | o :: rest =>
+      match o with OAdd _ => sfull f = false | _ => True end /\ valid_hist (sstep f o) rest
+  end.
+
+Theorem inflights_history_from s ops :
+  Inv s -> valid_hist (abs_state s) ops ->
+  exists s', run s ops = Ok s' /\ Inv s' /\ abs_state s' = fold_left sstep ops (abs_state s).
+Proof.
+  revert s. induction ops as [|o rest IH]; intros s HI Hv.
+  - exists s. cbn. auto.
+  - destruct Hv as [Ho Hrest].
+    destruct (step_refines s o HI) as (s1 & H1 & H2 & H3).
+    { intros x ->. rewrite full_sfull. exact Ho. }
+    rewrite <- H3 in Hrest. destruct (IH s1 H2 Hrest) as (s' & Hr & HI' & Ha').
+    exists s'. cbn [run fold_left]. rewrite H1. cbn [bind]. rewrite <- H3. auto.
+Qed.
+
+Theorem inflights_history c ops :
+  valid_hist (snew c) ops ->
+  exists s, run (new c) ops = Ok s /\ Inv s /\
+            abs_state s = fold_left sstep ops (snew c) /\
+            count s = length (q (fold_left sstep ops (snew c))) /\
+            full s = sfull (fold_left sstep ops (snew c)).
+Proof.
+  intros Hv. destruct (inflights_history_from (new c) ops (Inv_new c) Hv) as (s & H1 & H2 & H3).
+  exists s. rewrite abs_new in H3.
+  split; [exact H1|]. split; [exact H2|]. split; [exact H3|]. split.
+  - rewrite <- H3. apply count_abs.
+  - rewrite <- H3. apply full_sfull.
+Qed.
+
+(* ---- what the FIFO specification says (read these as the meaning of sstep) ---- *)
+
+Lemma settle_q f : q (settle f) = q f.
+Proof. unfold settle. destruct (q f) eqn:E; destruct (pending f); cbn; auto. Qed.
+
+Theorem free_to_prefix f to :
+  exists removed,
+    q f = removed ++ q (sstep f (OFreeTo to)) /\
+    Forall (fun b => (b <= to)%N) removed /\
+    match q (sstep f (OFreeTo to)) with [] => True | b :: _ => (to < b)%N end.
+Proof.
+  cbn [sstep]. unfold sfree_to. rewrite settle_q. cbn [q]. apply dropwhile_le_spec.
+Qed.
+
+Theorem no_loss_set_cap f c : q (sstep f (OSetCap c)) = q f.
+Proof.
+  cbn [sstep]. destruct (Nat.compare (fcap f) c); try reflexivity.
+  destruct (q f) eqn:E; cbn; auto.
+Qed.
+
+Theorem no_loss_maybe_free f : sstep f OMaybeFree = f.
+Proof. reflexivity. Qed.
+
+Theorem add_appends f x : q (sstep f (OAdd x)) = q f ++ [x].
+Proof. reflexivity. Qed.
+
+(* a smaller capacity governs fullness immediately ... *)
+Theorem shrink_governs_full f c :
+  c < fcap f -> length (q f) <= fcap f ->
+  sfull (sstep f (OSetCap c)) = (c <=? length (q f)).
+Proof.
+  intros Hlt Hlen. cbn [sstep].
+  destruct (Nat.compare_spec (fcap f) c) as [E|E|E]; try lia.
+  destruct (q f) as [|b t] eqn:Eq; unfold sfull; cbn [q fcap pending length].
+  - case_leb.
+  - cbn [length] in Hlen. case_leb.
+Qed.
+
+(* ... and becomes the capacity no later than when the window drains *)
+Theorem shrink_applied_on_drain f c o :
+  pending f = Some c ->
+  (o = OReset \/ (exists to, o = OFreeTo to) \/ o = OFreeFirst) ->
+  q (sstep f o) = [] -> q f <> [] ->
+  fcap (sstep f o) = c /\ pending (sstep f o) = None.
+Proof.
+  intros Hp Ho Hq Hne.
+  destruct Ho as [Ho|[Ho|Ho]]; [subst o|destruct Ho as (to & Ho); subst o|subst o]; cbn [sstep] in *.
+  - rewrite Hp. auto.
+  - unfold sfree_to in *. rewrite settle_q in Hq. cbn [q] in Hq.
+    unfold settle. cbn [q pending]. rewrite Hq, Hp. auto.
+  - destruct (q f) as [|b t] eqn:Eq; [congruence|].
+    unfold sfree_to in *. rewrite settle_q in Hq. cbn [q] in Hq.
+    unfold settle. cbn [q pending]. rewrite Hq, Hp. auto.
+Qed.
+
+(* With strictly increasing contents (the way the leader uses the window:
+   indexes are added in increasing order) free_first_one pops exactly the head. *)
+Definition incr (l : list N) : Prop := StronglySorted N.lt l.
+
+Lemma dropwhile_head_incr b t : incr (b :: t) -> dropwhile_le b (b :: t) = t.
+Proof.
+  intros H. inversion H as [|? ? Hs Hf]; subst. cbn [dropwhile_le].
+  rewrite N.ltb_irrefl. destruct t as [|b' t']; [reflexivity|].
+  cbn [dropwhile_le]. inversion Hf; subst. destruct (N.ltb_spec b b'); [reflexivity|lia].
+Qed.
+
+Theorem free_first_pops f :
+  incr (q f) -> q (sstep f OFreeFirst) = tl (q f).
+Proof.
+  intros H. cbn [sstep]. destruct (q f) as [|b t] eqn:E; [rewrite E; reflexivity|].
+  unfold sfree_to. rewrite settle_q. cbn [q]. rewrite E. apply dropwhile_head_incr. assumption.
+Qed.
+
+Lemma dropwhile_incr to l : incr l -> incr (dropwhile_le to l).
+Proof.
+  induction l as [|b t IH]; intros H; [constructor|].
+  cbn [dropwhile_le]. destruct (to <? b)%N; [assumption|]. apply IH. inversion H; assumption.
+Qed.
+
+Lemma incr_snoc l x : incr l -> (forall b, In b l -> (b < x)%N) -> incr (l ++ [x]).
+Proof.
+  induction l as [|a t IH]; intros H Hx; cbn.
+  - constructor; constructor.
+  - inversion H as [|? ? Hs Hf]; subst. constructor.
+    + apply IH; [assumption|]. intros b Hb. apply Hx. right. assumption.
+    + apply Forall_app. split; [assumption|]. constructor; [|constructor]. apply Hx. left. reflexivity.
+Qed.
+
+(* histories whose adds are increasing keep the window strictly increasing *)
+Fixpoint incr_hist (f : fifo) (ops : list op) : Prop :=
+  match ops with
+  | [] => True
+  | o :: rest =>
+      match o with OAdd x => forall b, In b (q f) -> (b < x)%N | _ => True end
+      /\ incr_hist (sstep f o) rest
+  end.
+
+Theorem incr_preserved f o :
+  incr (q f) ->
+  match o with OAdd x => forall b, In b (q f) -> (b < x)%N | _ => True end ->
+  incr (q (sstep f o)).
+Proof.
+  intros H Ho. destruct o as [x|to| | |c| ].
+  - cbn [sstep q]. apply incr_snoc; assumption.
+  - cbn [sstep]. unfold sfree_to. rewrite settle_q. cbn [q]. apply dropwhile_incr. assumption.
+  - cbn [sstep]. destruct (q f) as [|b t] eqn:E; [rewrite E; assumption|].
+    unfold sfree_to. rewrite settle_q. cbn [q]. rewrite E. apply dropwhile_incr. assumption.
+  - cbn. constructor.
+  - rewrite no_loss_set_cap. assumption.
+  - assumption.
+Qed.
+
+(* non-vacuity: a wrapped-around ring state satisfying Inv, reached by a valid history *)
+Example inv_wrapped_example :
+  exists s, run (new 3) [OAdd 1%N; OAdd 2%N; OAdd 3%N; OFreeTo 2%N; OAdd 4%N; OSetCap 2] = Ok s
+            /\ start s = 2 /\ count s = 2 /\ abs s = [3%N; 4%N] /\ incoming_cap s = Some 2
+            /\ full s = true.
+Proof. eexists. split; [vm_compute; reflexivity|]. vm_compute. auto. Qed.
